@@ -119,9 +119,12 @@ def judgeDict (i : Intern) (setTok : String) (k : Option Nat) (qsTok : String) (
     let r1 := (implParts.getD 0 "").splitOn ";"
     let r2 := (implParts.getD 1 "").splitOn ";"
     let lost := (r1.zip r2).filter (fun (a, b) => resolved a ∧ ¬ resolved b)
-    let _ := (l1, s1, s2)
+    let _ := l1
+    -- ... and both stages against the resolution defined on the list of loaded files
+    let stale := r1 ≠ s1 ∨ r2 ≠ s2
     (i', { model := modelOut,
-           fails := (if lost.isEmpty then [] else ["C17:resolvable-before-unresolvable-after-load"]),
+           fails := (if lost.isEmpty then [] else ["C17:resolvable-before-unresolvable-after-load"]) ++
+                    (if stale then ["C17:lookup-differs-from-log-resolution-after-later-load"] else []),
            tags := [s!"mono files={fs.length} k={k} queries={qs.length}"] })
 
 /-- `codec findn app=<a> sets=<specA>^<specB> name=<n> mode=<first|all> <tree> => <r1> | <r2>`:
